@@ -197,6 +197,7 @@ pub proof fn lemma_no_limit_push(tr: Seq<Gen>, g: Gen, from: int)
 //@ - r is Ok && !old(context).in_specs ==> forall|i: int| 0 <= i < old(tags)@.len() ==>
 //@       succeeded(final(context).tr@, old(context).tr@.len() as int, (#[trigger] old(tags)@[i]).1)     @@C10.retry.complete
 //@ - r is Ok && !old(context).in_specs ==> no_limit_err(final(context).tr@, old(context).tr@.len() as int)     @@C17.limit.final @@C01.retry.limit_final
+//@ - !old(context).in_specs && !no_limit_err(final(context).tr@, old(context).tr@.len() as int) ==> r is Err && is_limit(r->Err_0)     @@C17.limit.propagated
 //@ - r is Ok ==> r->Ok_0 == union_spec(final(bbb).boxes())     @@C08.union.result
 //@ - r is Ok && !old(context).in_specs ==> final(bbb).boxes() == old(bbb).boxes() + ok_boxes(final(context).tr@, old(context).tr@.len() as int, final(context).tr@.len() as int)     @@C08.union.all
 //@ - r is Ok && old(context).in_specs ==> final(bbb).boxes() == old(bbb).boxes()     @@C08.union.specs_silent @@C18.specs.silent
